@@ -10,7 +10,10 @@ are compared with a plain-dict reference scene graph (``Ref``).
 Universe: full IDs F0 (prim, announced by ObjectUpdate), F1 (prim, announced by ObjectUpdateCompressed and the object
 the viewer object cache describes), F2 (avatar, ObjectUpdate); local IDs 1..3 per region; parents in {0, other locals};
 1 or 2 regions, each can be torn down (``mark_dead``) and re-tracked (what UseCircuitCode + RegionHandshake do).
-CRC 1 on the wire, CRC 2 in the viewer cache (one cache entry per local ID, so local IDs stay interchangeable).
+CRC 1 on the wire, CRC 2 in the viewer cache (one cache entry per local ID, so local IDs stay interchangeable).  The
+viewer cache is a chain of two per-viewer caches (``_vo_chain``): the (local, CRC 2) entry sits behind an out-of-date
+(local, CRC 3) entry of the first cache in every search ("stale-first"); profile "cache/<arrangement>" repeats the
+cached-update events with the chain fresh-first, disjoint and with equal entries in both caches.
 
 Events (last element = scenario tag computed from the reference model; it names the violation site and carries the
 deviation bit):
@@ -117,6 +120,9 @@ PROFILES = {
     # "requests" = request futures against announce / properties / kill / teardown (+ deferred done-callbacks), run
     # with a single local ID so that it goes deep
     "requests": {"A", "P", "K", "Kx", "TD", "TDx", "RT", "RQ", "RP"},
+    # "cache/<arrangement>" = announce / cached update / kill / teardown + re-track (which reloads the cache chain), run
+    # once per arrangement of the two viewer caches; every other search uses the stale-first chain
+    "cache": {"A", "C", "K", "TD", "RT"},
 }
 
 HANDLER = {
@@ -139,9 +145,23 @@ HANDLER = {
 }
 
 
-def _vo_entries(region_index: int):
-    return [ViewerObjectCacheEntry(local_id=l, crc=2, data=wh.compressed_data(wh.FULLS[1], l, 0, 2))
-            for l in range(1, NL + 1)]
+VO_ARRANGEMENTS = ("stale-first", "fresh-first", "disjoint", "equal")
+
+
+def _vo_chain(arrangement: str):
+    """The viewer object cache of a region as a chain of TWO per-viewer caches (several viewers installed).  The entry the
+    simulator's ObjectUpdateCached refers to is (local l, CRC 2) -> F1 for every local l; depending on the arrangement
+    the other cache holds an out-of-date entry for the same local (CRC 3, never announced), nothing relevant, or the same
+    entry.  All four must behave alike: a (local, CRC) pair present in any cache of the chain is a hit."""
+    fresh = [ViewerObjectCacheEntry(local_id=l, crc=2, data=wh.compressed_data(wh.FULLS[1], l, 0, 2))
+             for l in range(1, NL + 1)]
+    stale = [ViewerObjectCacheEntry(local_id=l, crc=3, data=wh.compressed_data(wh.FULLS[1], l, 0, 3))
+             for l in range(1, NL + 1)]
+    other = [ViewerObjectCacheEntry(local_id=l + 6, crc=2, data=wh.compressed_data(wh.FULLS[1], l + 6, 0, 2))
+             for l in range(1, NL + 1)]
+    chain = {"stale-first": [stale, fresh], "fresh-first": [fresh, stale], "disjoint": [other, fresh],
+             "equal": [fresh, list(fresh)]}[arrangement]
+    return lambda region_index: chain
 
 
 # =================================================================================================================
@@ -262,8 +282,8 @@ class Ref:
 
 # =================================================================================================================
 class World:
-    def __init__(self, nreg: int):
-        self.lw = wh.build_world(nreg, _vo_entries, SETTINGS)
+    def __init__(self, nreg: int, vo: str = "stale-first"):
+        self.lw = wh.build_world(nreg, _vo_chain(vo), SETTINGS)
         self.ref = Ref(nreg)
         self.futs: List[Dict[str, Any]] = []       # futures handed to the harness by request_* (still pending)
         self.loop_excs: List[BaseException] = []
@@ -304,10 +324,13 @@ class Harness:
         self.nreg = nreg
         self.nl = nl              # local IDs offered per region (the oracle always inspects all NL)
         self.profile = profile
-        self.kinds = PROFILES[profile]
+        # "cache/<arrangement>": the arrangement of the two-cache viewer object cache chain (default stale-first)
+        base, _, vo = profile.partition("/")
+        self.vo = vo or "stale-first"
+        self.kinds = PROFILES[base]
 
     def fresh(self) -> World:
-        return World(self.nreg)
+        return World(self.nreg, self.vo)
 
     def deviation(self, ev) -> int:
         return 1 if ev[-1] in DEV_TAGS else 0
@@ -845,9 +868,12 @@ def _observations():
 BOUNDS = {
     # tier: [(profile, regions, locals per region, depth, deviation bound)]
     "quick": [("graph", 1, 3, 5, 2), ("graph", 2, 2, 4, 2), ("full", 1, 3, 3, 2), ("full", 2, 2, 3, 2),
-              ("requests", 1, 1, 8, 3), ("requests", 1, 2, 4, 2)],
+              ("requests", 1, 1, 8, 3), ("requests", 1, 2, 4, 2),
+              ("cache/fresh-first", 1, 2, 4, 2), ("cache/disjoint", 1, 2, 4, 2), ("cache/equal", 1, 2, 4, 2)],
     "thorough": [("graph", 1, 3, 14, 3), ("graph", 2, 2, 6, 3), ("full", 1, 3, 4, 3), ("full", 1, 2, 5, 2),
-                 ("full", 2, 2, 4, 2), ("requests", 1, 1, 10, 3), ("requests", 1, 2, 5, 2)],
+                 ("full", 2, 2, 4, 2), ("requests", 1, 1, 10, 3), ("requests", 1, 2, 5, 2),
+                 ("cache/stale-first", 1, 3, 5, 3), ("cache/fresh-first", 1, 3, 5, 3), ("cache/disjoint", 1, 3, 5, 3),
+                 ("cache/equal", 1, 3, 5, 3)],
 }
 
 
@@ -865,7 +891,8 @@ def run(run: Run):
         "parents in {0, other locals}, 1 or 2 regions (region 1 addressed only after region 0: region symmetry), "
         "multi-kill only for local pairs (1,2)/(2,1), at most 2 pending request futures",
         "proxy settings fixed: USE_VIEWER_OBJECT_CACHE=True, AUTOMATICALLY_REQUEST_MISSING_OBJECTS=True, "
-        "ALLOW_AUTO_REQUEST_OBJECTS=True; viewer cache holds (local l, CRC 2) -> F1 for every local",
+        "ALLOW_AUTO_REQUEST_OBJECTS=True; viewer cache = chain of two caches holding (local l, CRC 2) -> F1 for every local "
+        "behind / before a stale (l, CRC 3) entry, next to unrelated entries, or twice (arrangement uniform over locals)",
         "model sides with the code where the statement is silent: avatars are exempt from cascading kills; objects moved "
         "to an untracked region handle stay in the session full-ID index (membership not asserted)",
         "trusted base: SessionManager built without HTTPFlowContext / multiprocessing.Event, viewer cache directory scan "
